@@ -32,8 +32,13 @@ func DirkBin() (string, error) {
 // A directory lock can be held for an instant by another goroutine's freshly forked child (descriptors are only
 // closed at exec), so "cannot acquire directory lock" is retried a few times; it never reflects Dirk's behaviour.
 func CLI(storageDir string, args ...string) (int, string, string, error) {
+	return CLIWithEnv(nil, storageDir, args...)
+}
+
+// CLIWithEnv is CLI with additional environment variables for the child.
+func CLIWithEnv(extra []string, storageDir string, args ...string) (int, string, string, error) {
 	for attempt := 0; ; attempt++ {
-		code, so, se, err := cliOnce(storageDir, args...)
+		code, so, se, err := cliOnce(extra, storageDir, args...)
 		if err == nil && code != 0 && strings.Contains(se, "Cannot acquire directory lock") && attempt < 20 {
 			time.Sleep(time.Duration(20*(attempt+1)) * time.Millisecond)
 			continue
@@ -42,7 +47,7 @@ func CLI(storageDir string, args ...string) (int, string, string, error) {
 	}
 }
 
-func cliOnce(storageDir string, args ...string) (int, string, string, error) {
+func cliOnce(extra []string, storageDir string, args ...string) (int, string, string, error) {
 	bin, err := DirkBin()
 	if err != nil {
 		return -1, "", "", err
@@ -54,6 +59,7 @@ func cliOnce(storageDir string, args ...string) (int, string, string, error) {
 	defer os.RemoveAll(base)
 	cmd := exec.Command(bin, append([]string{"--base-dir", base}, args...)...)
 	cmd.Env = append(os.Environ(), "DIRK_SERVER_NAME=verif", "DIRK_STORAGE_PATH="+storageDir, "HOME="+base)
+	cmd.Env = append(cmd.Env, extra...)
 	var so, se bytes.Buffer
 	cmd.Stdout, cmd.Stderr = &so, &se
 	err = cmd.Run()
